@@ -280,6 +280,17 @@ pub fn drive(args: &[String]) {
         }
         let cfg = json!({"q": q, "r": r, "hasher": bh.to_json(), "keys": keys});
         let mut steps: Vec<Value> = vec![];
+        // one scenario in three opens with the motif "content arrives by union only" (see cms.rs)
+        if sci % 3 == 2 {
+            steps.push(json!({"obj": "b", "op": {"name":"ins","key": 0}}));
+            steps.push(json!({"obj": "b", "op": {"name":"ins","key": 1}}));
+            steps.push(json!({"obj": "a", "other": "b", "op": {"name":"union"}}));
+            steps.push(json!({"obj": "a", "op": {"name":"clear"}}));
+            steps.push(json!({"obj": "a", "op": {"name":"ins","key": 2}}));
+            steps.push(json!({"obj": "a", "other": "b", "op": {"name":"union"}}));
+            steps.push(json!({"obj": "a", "op": {"name":"clear"}}));
+            steps.push(json!({"obj": "a", "other": "b", "op": {"name":"union"}}));
+        }
         let n_ops = 20 + rng.below(60);
         for _ in 0..n_ops {
             let x = rng.below(100);
